@@ -209,6 +209,8 @@ def model_a(case):
 # =============================================================================================
 # family B: Resource / PriorityResource / PreemptiveResource, one process per user
 def run_b(case):
+    import contextlib
+    from usim.py.resources.resource import PriorityRequest
     env = Environment()
     kind = case['kind']
     cls = {'resource': Resource, 'presource': PriorityResource, 'preemptive': PreemptiveResource}[kind]
@@ -217,40 +219,51 @@ def run_b(case):
     procs = {}
     insp = []
 
+    def make(u):
+        if kind == 'resource':
+            return res.request()
+        if kind == 'presource' or u['preempt']:
+            return res.request(priority=u['priority'])
+        # (PreemptiveResource.request() of usim.py has no `preempt` parameter; the request class has)
+        return PriorityRequest(res, priority=u['priority'], preempt=False)
+
     def user(i, u):
         log = logs.setdefault(i, [])
         yield env.timeout(u['arrive'] + u['phase'] / 16)
-        if kind == 'resource':
-            req = res.request()
-        elif kind == 'presource':
-            req = res.request(priority=u['priority'])
-        elif u['preempt']:
-            req = res.request(priority=u['priority'])
-        else:
-            # (PreemptiveResource.request() of usim.py has no `preempt` parameter; the request class has)
-            from usim.py.resources.resource import PriorityRequest
-            req = PriorityRequest(res, priority=u['priority'], preempt=False)
-        log.append(('request', env.now))
-        with req:
-            try:
-                if u.get('patience') is None:
-                    yield req
-                else:
-                    yield req | env.timeout(u['patience'])
-                if not req.triggered:
-                    log.append(('gave_up', env.now))
-                else:
-                    log.append(('granted', env.now))
-                    if u['hold']:
-                        yield env.timeout(u['hold'])
-                    log.append(('release', env.now))
-            except Interrupt as it:
-                c = it.cause
-                if isinstance(c, Preempted):
-                    by = next((k for k, p in procs.items() if p is c.by), None)
-                    log.append(('preempted', env.now, by, c.usage_since, c.resource is res))
-                else:
-                    log.append(('interrupt', env.now))
+        tries = u.get('retry', 0)
+        first = True
+        while True:
+            # (a retry issues its new requests from the segment that handled the Interrupt)
+            again = False
+            with contextlib.ExitStack() as stack:
+                reqs = [stack.enter_context(make(u)) for _ in range(u.get('burst', 1))]
+                log.append(('request', env.now))
+                try:
+                    if u.get('patience') is None or not first or len(reqs) > 1:
+                        for req in reqs:
+                            yield req
+                    else:
+                        yield reqs[0] | env.timeout(u['patience'])
+                    if not reqs[0].triggered:
+                        log.append(('gave_up', env.now))
+                    else:
+                        log.append(('granted', env.now))
+                        if u['hold']:
+                            yield env.timeout(u['hold'])
+                        log.append(('release', env.now))
+                except Interrupt as it:
+                    c = it.cause
+                    if isinstance(c, Preempted):
+                        by = next((k for k, p in procs.items() if p is c.by), None)
+                        log.append(('preempted', env.now, by, c.usage_since, c.resource is res))
+                        if tries > 0:
+                            tries -= 1
+                            again = True
+                    else:
+                        log.append(('interrupt', env.now))
+            first = False
+            if not again:
+                break
 
     def inspector():
         yield env.timeout(0.97)
@@ -270,71 +283,131 @@ def model_b(case):
     cap = case['capacity']
     us = case['users']
     if cap < 1 or len({u['phase'] for u in us}) != len(us) or any(
-            not (1 <= u['phase'] <= 15) or u['hold'] < 0 or u['arrive'] < 0 or
+            not (1 <= u['phase'] <= 15) or u['hold'] < 0 or u['arrive'] < 0 or u.get('burst', 1) < 1 or
             (u.get('patience') is not None and u['patience'] < 1) for u in us):
         raise InvalidCase('users must act on distinct phases; holds and patience >= 1')
-    users = []       # dict(i, key, since)
-    queue = []       # dict(i, key, preempt)
-    logs = {i: [] for i in range(len(case['users']))}
-    events = []      # (time, order, kind, i)
+    if any(u.get('retry', 0) for u in us) and (kind != 'preemptive' or any(u['hold'] < 1 for u in us)):
+        raise InvalidCase('retrying users race with a preemptor that releases in the step of the eviction')
+    users = []       # dict(i, key, since)    one entry per held slot
+    queue = []       # dict(i, key, preempt)  one entry per pending request
+    logs = {i: [] for i in range(len(us))}
+    events = []      # (time, order, kind, i, generation)
     order = [0]
+    gen = {i: 0 for i in range(len(us))}          # bumped when the user's current attempt ends by eviction
+    retries = {i: u.get('retry', 0) for i, u in enumerate(us)}
+    want = {}        # i -> number of requests of the current attempt not yet granted
+    evicted_now = {}  # time -> users evicted in that time step
 
     def push(t, k, i):
         order[0] += 1
-        events.append((t, order[0], k, i))
+        events.append((t, order[0], k, i, gen[i]))
         events.sort()
-    for i, u in enumerate(case['users']):
+    for i, u in enumerate(us):
         push(u['arrive'] + u['phase'] / 16, 'arrive', i)
-    granted_at = {}
-    done = set()
 
     def trigger_put(now):
         while queue:
             head = queue[0]
             if kind == 'preemptive' and len(users) >= cap and head['preempt']:
-                cand = max(users, key=lambda x: x['key'])
+                cand = sorted(users, key=lambda x: x['key'])[-1]     # equal keys (one user's burst): the latest grant
                 if head['key'] < cand['key']:
+                    others = {e[3] for e in events if e[0] == now and e[2] != 'evicted' and e[4] == gen[e[3]]}
+                    others |= acted.get(now, set())
+                    if others - {cur_user[0]}:
+                        # (several users released 2-3 slots of one earlier user and now act in one time step)
+                        raise InvalidCase('an eviction in a time step in which another user acts as well: order matters')
                     users.remove(cand)
-                    logs[cand['i']].append(('preempted', now, head['i'], cand['since'], True))
-                    done.add(cand['i'])
-                    # the evicted process leaves its with-block: its release finds nothing to remove,
-                    # then grantable requests are served
+                    v = cand['i']
+                    if ('ev', v, gen[v]) in seen:
+                        extra.add((v, gen[v]))
+                    else:
+                        # the first eviction of this attempt interrupts the process: it leaves its with-block (giving
+                        # back every other slot and pending request) later in this time step; further evictions before
+                        # that only queue interrupts which the finished attempt never looks at
+                        seen.add(('ev', v, gen[v]))
+                        if logs[v][-1] == ('granted', now):
+                            # granted and evicted within one time step: the process sees the grant only if it ran between
+                            if granted_in.get(v) != cur[0]:
+                                raise InvalidCase('grant and eviction of one user in different activations of one step')
+                            logs[v].pop()
+                        logs[v].append(('preempted', now, head['i'], cand['since'], True))
+                        evicted_now.setdefault(now, []).append(v)
+                        push(now, 'evicted', v)
             if len(users) < cap:
                 queue.pop(0)
-                users.append({'i': head['i'], 'key': head['key'], 'since': now})
-                granted_at[head['i']] = now
-                logs[head['i']].append(('granted', now))
-                push(now + case['users'][head['i']]['hold'], 'release', head['i'])
+                i = head['i']
+                users.append({'i': i, 'key': head['key'], 'since': now})
+                want[i] -= 1
+                if want[i] == 0 and ('ev', i, gen[i]) not in seen:
+                    logs[i].append(('granted', now))
+                    granted_in[i] = cur[0]
+                    push(now + us[i]['hold'], 'release', i)
             else:
                 break
+    seen = set()
+    granted_in = {}
+    cur = [0]        # the model event (= one activation of one process) being handled
+    cur_user = [None]
+    acted = {}       # time -> users that acted on their own (not as victims) in that time step
+    extra = set()
     insp = []
     tick = 0.97
     horizon = case['horizon']
+
+    def request(i, t, patience):
+        u = us[i]
+        key = (u['priority'], t, not u['preempt']) if kind != 'resource' else (0, t, False)
+        logs[i].append(('request', t))
+        n = u.get('burst', 1)
+        want[i] = n
+        if patience is not None and n == 1:
+            push(t + patience, 'patience', i)
+        for _ in range(n):
+            queue.append({'i': i, 'key': key, 'preempt': u['preempt']})
+            if kind != 'resource':
+                queue.sort(key=lambda x: x['key'])      # stable: equal keys stay in request order
+            trigger_put(t)
+
+    def leave(i, t):
+        users[:] = [x for x in users if x['i'] != i]
+        queue[:] = [q for q in queue if q['i'] != i]
+        trigger_put(t)
+
     while events or tick < horizon:
         if events and (tick >= horizon or events[0][0] < tick):
-            t, _, k, i = events.pop(0)
-            u = case['users'][i]
+            t, cur[0], k, i, g = events.pop(0)
+            u = us[i]
+            if g != gen[i]:
+                continue            # belongs to an attempt that was ended by an eviction
+            cur_user[0] = i
+            if k != 'evicted':
+                acted.setdefault(t, set()).add(i)
             if k == 'arrive':
-                key = (u['priority'], t, not u['preempt']) if kind != 'resource' else (0, t, False)
-                logs[i].append(('request', t))
-                entry = {'i': i, 'key': key, 'preempt': u['preempt']}
-                queue.append(entry)
-                if kind != 'resource':
-                    queue.sort(key=lambda x: x['key'])
-                if u.get('patience') is not None:
-                    push(t + u['patience'], 'patience', i)
-                trigger_put(t)
+                request(i, t, u.get('patience'))
             elif k == 'patience':
-                if i not in granted_at and any(q['i'] == i for q in queue):
+                if want.get(i) and any(q['i'] == i for q in queue):
                     # cancelling only removes the request: queues are served on new requests and releases
                     queue[:] = [q for q in queue if q['i'] != i]
                     logs[i].append(('gave_up', t))
             elif k == 'release':
-                if i in done:
-                    continue
                 logs[i].append(('release', t))
-                users[:] = [x for x in users if x['i'] != i]
-                trigger_put(t)
+                leave(i, t)
+            elif k == 'evicted':
+                gen[i] += 1
+                if retries[i] > 0 and (i, g) in extra:
+                    # the second interrupt is still pending when the handler re-requests: it hits the new attempt
+                    raise InvalidCase('retrying user with two evictions pending in one time step')
+                if retries[i] > 0:
+                    if len(evicted_now.get(t, ())) > 1:
+                        raise InvalidCase('a retry in a time step with several evictions: handler order matters')
+                    retries[i] -= 1
+                    # leaving the with-block frees the other slots, but waiting requests are only served once the
+                    # Release events are processed - after this activation, which first issues the new requests
+                    users[:] = [x for x in users if x['i'] != i]
+                    queue[:] = [q for q in queue if q['i'] != i]
+                    request(i, t, None)
+                else:
+                    leave(i, t)
         else:
             insp.append((tick, len(users), len(queue)))
             tick += 1
@@ -381,11 +454,33 @@ def cases(draw, tier):
     nusers = draw(st.integers(1, 7 if big else 6))
     phases = draw(st.permutations(list(range(1, 15))))[:nusers]
     users = []
+    mode = draw(st.sampled_from(['plain', 'plain', 'retry', 'burst', 'both'])) if fam == 'preemptive' else \
+        draw(st.sampled_from(['plain', 'plain', 'burst']))
     for i in range(nusers):
-        users.append({'phase': phases[i], 'arrive': draw(st.integers(0, 4)), 'priority': draw(st.integers(0, 3)),
-                      'preempt': draw(st.booleans()) if fam == 'preemptive' else True,
-                      'patience': draw(st.sampled_from([None, None, 1, 2, 4])), 'hold': draw(st.integers(0, 4))})
-    return {'kind': fam, 'capacity': draw(st.integers(1, 3)), 'users': users, 'horizon': 30}
+        u = {'phase': phases[i], 'arrive': draw(st.integers(0, 4)), 'priority': draw(st.integers(0, 3)),
+             'preempt': draw(st.booleans()) if fam == 'preemptive' else True,
+             'patience': draw(st.sampled_from([None, None, 1, 2, 4])),
+             'hold': draw(st.integers(1 if mode in ('retry', 'both') else 0, 4))}
+        if mode in ('retry', 'both') and (i == 0 or draw(st.integers(0, 3)) == 0):
+            # (to be evicted again after its retry was granted the user needs several better rivals arriving later)
+            u['retry'] = draw(st.integers(1, 2))
+            u['priority'] = draw(st.sampled_from([2, 3, 3]))
+            u['hold'] = draw(st.integers(2, 6))
+            u['preempt'] = True
+        elif mode in ('retry', 'both'):
+            u['arrive'] = draw(st.integers(0, 9))
+            u['hold'] = draw(st.integers(1, 2))
+            u['priority'] = draw(st.sampled_from([0, 1, 1, 2, 3]))
+            u['preempt'] = draw(st.integers(0, 4)) > 0
+        if mode in ('burst', 'both') and draw(st.integers(0, 2)) == 0:
+            u['burst'] = draw(st.integers(2, 3))
+        users.append(u)
+    cap = draw(st.integers(1, 3))
+    if mode in ('retry', 'both'):
+        cap = draw(st.integers(1, 2))
+    if mode in ('burst', 'both'):
+        cap = max(cap, max(u.get('burst', 1) for u in users))       # (a larger burst than capacity never completes)
+    return {'kind': fam, 'capacity': cap, 'users': users, 'horizon': 40}
 
 
 class C19(Check):
@@ -395,7 +490,8 @@ class C19(Check):
             'PriorityStore, FilterStore (capacities 1..5 or unbounded; amounts, items, priorities, filters incl. one that '
             'matches nothing) with grant callbacks and an inspector between batches; (B) 1-7 user processes (request with '
             'priority/preempt, optional patience, hold, release through the with-pattern) against Resource, PriorityResource, '
-            'PreemptiveResource (capacity 1-3), users acting on distinct time phases. Oracle: sequential reference model of '
+            'PreemptiveResource (capacity 1-3), users acting on distinct time phases; users may take 2-3 slots in one '
+            'activation and re-request from their Interrupt handler after an eviction. Oracle: sequential reference model of '
             'the documented policies. non-trivial = a request had to wait, or was cancelled/preempted, or a filter matched '
             'nothing; distinct by sha1.')
     budgets = {'quick': dict(examples=2400, procs=4), 'thorough': dict(examples=300000, procs=16)}
@@ -525,6 +621,10 @@ class C19(Check):
         if not out.failures and got_i != want_i:
             d = next((k for k, (x, y) in enumerate(zip(got_i, want_i)) if x != y), 0)
             out.fail('state', '%s:inspection' % kind, 'count/queue at %r: %r vs model %r' % (got_i[d][0], got_i[d], want_i[d]))
+        if any(sum(1 for e in l if e[0] == 'preempted') >= 2 for l in want_l.values()):
+            out.features.add('preempted_again_after_retry')
+        if any(u.get('burst', 1) > 1 and any(e[0] == 'preempted' for e in want_l[i]) for i, u in enumerate(case['users'])):
+            out.features.add('multi_slot_user_preempted')
         out.nontrivial = any(e[0] in ('preempted', 'gave_up') for l in want_l.values() for e in l) or \
             any(len(l) >= 2 and l[1][0] == 'granted' and l[1][1] > l[0][1] for l in want_l.values())
 
